@@ -397,7 +397,10 @@ class Ctx:
         self.cov[key] = self.cov.get(key, 0) + n
 
     def write_evidence(self):
-        os.makedirs(EVID, exist_ok=True)
+        # evidence/<id>.json is only written by runs against the real repository; runs against a scratch copy
+        # (VERIF_REPO=..., bin/selftest) write to out/evidence-alt/ so that they never overwrite it
+        evid = EVID if os.path.realpath(self.repo) == "/repo" else os.path.join(VERIF, "out", "evidence-alt")
+        os.makedirs(evid, exist_ok=True)
         cov = dict(self.cov)
         ev = {
             "property_id": self.pid, "tier": self.tier, "seed": self.seed,
@@ -406,7 +409,7 @@ class Ctx:
             "violations": len(self.violations),
             "known_findings_hit": [k for k, _ in self.known_hits],
         }
-        with open(os.path.join(EVID, self.pid + ".json"), "w") as f:
+        with open(os.path.join(evid, self.pid + ".json"), "w") as f:
             json.dump(ev, f, indent=1, default=str)
             f.write("\n")
 
